@@ -368,3 +368,72 @@ pub fn dropped(ctx: &Ctx) {
         }
     }
 }
+
+/// a device that still holds an older complete file: either the writer refuses to start (device
+/// untouched), or - if it starts - what is on the device before its own finalize is rejected
+pub fn stale_device(ctx: &Ctx) {
+    let k = ctx.pick("old-file", N_SPECIAL);
+    let at_end = ctx.pick("handle-position", 2) == 1;
+    let steps = ctx.pick("calls-before-the-crash", 3); // 0: only new, 1: + add_pointcloud, 2: + 3 points (no finalize)
+    let old = {
+        let dev = Dev::empty();
+        let h = dev.handle();
+        let r = run_program(dev, &special(k), &ExecOpts::default());
+        if r.err.is_some() || r.panic.is_some() {
+            return;
+        }
+        h.snapshot()
+    };
+    ctx.describe(|| format!("device holds the complete file of shape {k} ({} bytes), handle at the {}; E57Writer::new + {steps} further steps, then the process dies", old.len(), if at_end { "end" } else { "start" }));
+    let res = guarded(|| {
+        let mut dev = Dev::new(old.clone());
+        if at_end {
+            use std::io::Seek;
+            let _ = dev.seek(std::io::SeekFrom::End(0));
+        }
+        let h = dev.handle();
+        let started = match e57::E57Writer::new(dev, "new-file") {
+            Err(_) => false,
+            Ok(mut w) => {
+                if steps >= 1 {
+                    if let Ok(mut pw) = w.add_pointcloud("new-pc", xyz(F32).iter().map(crate::conv::rec_to_e57).collect()) {
+                        if steps >= 2 {
+                            for i in 0..3 {
+                                let _ = pw.add_point(vec![e57::RecordValue::Single(i as f32), e57::RecordValue::Single(1.0), e57::RecordValue::Single(2.0)]);
+                            }
+                        }
+                        std::mem::forget(pw);
+                    }
+                }
+                // the process dies: nothing is dropped or flushed any more
+                std::mem::forget(w);
+                true
+            }
+        };
+        (started, h.snapshot())
+    });
+    match res {
+        Err(pi) => ctx.violation(format!("{P}/panic/{}", pi.class()), format!("writer panicked at {} ({})", pi.loc, pi.msg)),
+        Ok((false, img)) => {
+            if img != old {
+                ctx.violation(format!("{P}/refused-start-modified-device"), "E57Writer::new returned Err on a non-empty device but modified it".to_string());
+                return;
+            }
+            ctx.count("stale-device:writer-refused");
+            ctx.observe_u64((k * 100 + at_end as usize * 10 + steps) as u64);
+            ctx.nontrivial();
+        }
+        Ok((true, img)) => {
+            if let Ok(Ok(r)) = guarded(|| E57Reader::new(Dev::new(img.clone()))) {
+                ctx.violation(
+                    format!("{P}/accepted-before-finalize/stale-device"),
+                    format!("the writer started on a device holding an old complete file; before its finalize the reader accepts the device and lists {:?} (the old content)", r.pointclouds().iter().map(|p| p.guid.clone()).collect::<Vec<_>>()),
+                );
+                return;
+            }
+            ctx.count("stale-device:writer-started-image-rejected");
+            ctx.observe_u64((k * 100 + at_end as usize * 10 + steps) as u64 + 5000);
+            ctx.nontrivial();
+        }
+    }
+}
